@@ -601,13 +601,13 @@ func (w *world) failingUpdate(s Step) (*kit.Failure, string) {
 			mode = "error"
 			w.ev["excluded:F7"]++
 		}
-		// F21: a presence Set inside a failing callback writes through to the
+		// C08-PRES (new finding, provisional id): a presence Set inside a failing callback writes through to the
 		// presence carried by an earlier pending change / to the
 		// authoritative presence map.
 		for i := range edits {
 			if edits[i].Op == "pset" {
 				edits[i].Op = "rootset"
-				w.ev["excluded:F21"]++
+				w.ev["excluded:C08-PRES"]++
 			}
 		}
 	}
@@ -1112,7 +1112,7 @@ func run(c Case, opts runOpts) outcome {
 		if abort != "" {
 			w.ev["abort_"+abort]++
 			// A step other than Update failed (a pack could not be applied,
-			// Undo returned an error, ...): the case ends here. F22: an
+			// Undo returned an error, ...): the case ends here. C08-UNDO (new finding, provisional id): an
 			// Undo/Redo that fails half-way keeps the half-executed clone, so
 			// with exclusions on the clone==root oracle is not evaluated after
 			// a failed Undo/Redo (trigger: Undo/Redo returned an error).
@@ -1122,7 +1122,7 @@ func run(c Case, opts runOpts) outcome {
 						o.Fail = cf
 					}
 				} else {
-					w.ev["excluded:F22"]++
+					w.ev["excluded:C08-UNDO"]++
 				}
 			}
 		}
